@@ -146,7 +146,9 @@ def typeNamesAux : Nat → List Char → List Char → Bool → List (List Char)
         -- skip the string constant (no escapes inside the type strings of the domain)
         flush ++ typeNamesAux fuel ((cs.dropWhile (· != c)).drop 1) [] false
       else flush ++ typeNamesAux fuel cs [] (c == '.')
-def typeNames (t : String) : List String := (typeNamesAux (t.toList.length + 1) t.toList [] false).map String.ofList
+def typeNames (t : String) : List String :=
+  ((typeNamesAux (t.toList.length + 1) t.toList [] false).map String.ofList).filter
+    (fun n => !(n == "None" || n == "True" || n == "False"))   -- constants, not `ast.Name` nodes (`X | None`)
 
 /-- the string constants of a type string, in order (contents between matching quotes) -/
 def typeStrConstsAux : Nat → List Char → List (List Char)
